@@ -394,6 +394,7 @@ def run(ctx):
             exercise(ctx, label, label, g, app, None, thorough, code=code, latlon=latlon, mpu=mpu, srs=srs)
         finally:
             app.close()
+    deep_levels_case(ctx)
     ctx.assumptions += [
         "lattice world, 'local' profile grids (the global-mercator / global-geodetic profiles that hide level 0 are covered "
         'by C16 for addressing and not here), EPSG:3857 only (no lat/long axis order)',
@@ -403,6 +404,82 @@ def run(ctx):
     return ctx.finish('model_checking',
                       'TLC evaluates for every real app (grid x layer extent) the capabilities model, the address mapping and C02 '
                       'itself on the decoded ground rectangle of every requested advertised address; distinct = (grid, flavour, address)')
+
+
+def deep_levels_case(ctx):
+    """The numbers of the capabilities at deep levels of geographic grids (units per pixel around 1e-5 degrees, tile
+    indices in the hundred thousands): the rectangle a client computes from the TMS TileMap document - Origin + index x tile
+    size x units-per-pixel - has to be the rectangle the tile is rendered from, to half a pixel, also far from the origin.
+    TLC has no reals and 32 bit integers: this comparison is numeric, outside the model (the lattice worlds above keep
+    every number an integer)."""
+    import io
+    import shutil
+    import tempfile
+    from urllib.parse import urlparse, parse_qs
+    from lxml import etree
+    from PIL import Image
+    import mapproxy.client.http as http
+    from mapproxy.config.loader import ProxyConfiguration
+    from mapproxy.wsgiapp import MapProxyApp
+    from webtest import TestApp
+    d = tempfile.mkdtemp(prefix='verif-c02-deep-')
+    asked = []
+
+    def fake_open(client, url, data=None, method=None):
+        q = {k.upper(): v[0] for k, v in parse_qs(urlparse(url).query).items()}
+        asked.append([float(v) for v in q['BBOX'].split(',')])
+        b = io.BytesIO()
+        Image.new('RGB', (int(q['WIDTH']), int(q['HEIGHT'])), (10, 20, 30)).save(b, 'PNG')
+        b.seek(0)
+        b.headers = {'Content-type': 'image/png'}
+        b.code = 200
+        return b
+    orig = http.HTTPClient.open
+    http.HTTPClient.open = fake_open
+    try:
+        conf = {'services': {'tms': {}},
+                'layers': [{'name': 'geo', 'title': 'g', 'sources': ['cg']}, {'name': 'merc', 'title': 'm', 'sources': ['cm']}],
+                'caches': {'cg': {'grids': ['GLOBAL_GEODETIC'], 'sources': ['up'], 'meta_size': [1, 1], 'meta_buffer': 0, 'disable_storage': True},
+                           'cm': {'grids': ['GLOBAL_MERCATOR'], 'sources': ['up'], 'meta_size': [1, 1], 'meta_buffer': 0, 'disable_storage': True}},
+                'sources': {'up': {'type': 'wms', 'req': {'url': 'http://upstream.invalid/service', 'layers': 'up'}}},
+                'globals': {'cache': {'base_dir': os.path.join(d, 'cd'), 'lock_dir': os.path.join(d, 'l'), 'tile_lock_dir': os.path.join(d, 'tl')}}}
+        pc = ProxyConfiguration(conf, conf_base_dir=d, seed=False, renderd=False)
+        app = TestApp(MapProxyApp(pc.configured_services(), pc.base_config))
+        n = 0
+        for lay, code in (('geo', 'EPSG4326'), ('merc', 'EPSG900913')):
+            doc = etree.fromstring(app.get('/tms/1.0.0/%s/%s' % (lay, code)).body)
+            ox, oy = float(doc.find('Origin').get('x')), float(doc.find('Origin').get('y'))
+            bb = [float(doc.find('BoundingBox').get(k)) for k in ('minx', 'miny', 'maxx', 'maxy')]
+            tw, th = int(doc.find('TileFormat').get('width')), int(doc.find('TileFormat').get('height'))
+            for ts in doc.find('TileSets').findall('TileSet'):
+                order, upp = int(ts.get('order')), float(ts.get('units-per-pixel'))
+                if order not in (0, 5, 12, 14, 16, 18):
+                    continue
+                nx, ny = int((bb[2] - ox) / (upp * tw) + 0.5), int((bb[3] - oy) / (upp * th) + 0.5)
+                for fx, fy in ((0.0, 0.0), (0.5, 0.5), (0.93, 0.87)):
+                    x, y = min(int(nx * fx), nx - 1), min(int(ny * fy), ny - 1)
+                    del asked[:]
+                    r = app.get('%s/%d/%d.png' % (urlparse(ts.get('href')).path, x, y), status='*', expect_errors=True)
+                    n += 1
+                    ctx.count(('deep', lay, order, x, y))
+                    want = (ox + x * tw * upp, oy + y * th * upp, ox + (x + 1) * tw * upp, oy + (y + 1) * th * upp)
+                    if r.status_int != 200 or len(asked) != 1:
+                        ctx.violation({'kind': 'deep-level', 'flavour': 'tms', 'what': 'advertised-address-not-served'},
+                                      'TMS %s order %d tile %d/%d (listed in the TileMap document) is answered with %s, %d upstream requests' % (
+                                          lay, order, x, y, r.status_int, len(asked)), {'layer': lay, 'order': order, 'tile': [x, y]})
+                        continue
+                    off = max(abs(a - b) for a, b in zip(asked[0], want)) / upp
+                    if off > 0.5:
+                        ctx.violation({'kind': 'deep-level', 'flavour': 'tms', 'what': 'rectangle-from-the-document-differs'},
+                                      'TMS %s order %d (units-per-pixel="%s") tile %d/%d: the rectangle computed from the TileMap document %s and the '
+                                      'rectangle the tile is rendered from %s differ by %.1f pixels' % (
+                                          lay, order, ts.get('units-per-pixel'), x, y, [round(v, 9) for v in want], [round(v, 9) for v in asked[0]], off),
+                                      {'layer': lay, 'order': order, 'tile': [x, y], 'upp': ts.get('units-per-pixel')})
+        if n < 20:
+            raise tlc.MachineryError('deep levels: only %d addresses requested' % n)
+    finally:
+        http.HTTPClient.open = orig
+        shutil.rmtree(d, ignore_errors=True)
 
 
 def replay(ctx, data):
